@@ -205,7 +205,27 @@ func walkFacts(s *src, f *facts) {
 	mk := first(s.callsTo(set, "makeRPC"))
 	stubName := mk != nil && len(mk.Args) >= 2 && norm(s.str(mk.Args[1])) == join
 	f.b("rwNameJoinsWithDot", prefixOK && nameOK, s.pos(recCall))
-	f.b("rwSetsStub", set != nil && before(lastCheck, set) && strings.Contains(s.str(set.Fun), "FieldByName(functionField.Name)"), s.pos(set))
+	// (the stub is installed for EVERY field that passed the checks: the Set is one of the loop body's own
+	// statements, or sits directly under the settable-guard's positive branch)
+	setOwn := false
+	if set != nil && loop != nil {
+		var lbody *ast.BlockStmt
+		switch l := ast.Node(loop).(type) {
+		case *ast.ForStmt:
+			lbody = l.Body
+		case *ast.RangeStmt:
+			lbody = l.Body
+		}
+		setOwn = directStmt(lbody, set)
+		if !setOwn && lbody != nil {
+			for _, st := range lbody.List {
+				if i, ok := st.(*ast.IfStmt); ok && strings.Contains(s.str(i.Cond), "CanSet()") && !strings.HasPrefix(s.str(i.Cond), "!") && directStmt(i.Body, set) {
+					setOwn = true
+				}
+			}
+		}
+	}
+	f.b("rwSetsStub", set != nil && setOwn && before(lastCheck, set) && strings.Contains(s.str(set.Fun), "FieldByName(functionField.Name)"), s.pos(set))
 	f.b("rwStubNameIsPath", stubName && prefixOK, s.pos(mk))
 	guard := false
 	if loop != nil {
@@ -496,7 +516,38 @@ func convertFacts(s *src, f *facts) {
 	if ucd != nil && len(ucd.Body.List) > 0 {
 		if d, ok := ucd.Body.List[0].(*ast.DeferStmt); ok && len(s.callsTo(d, "recover")) > 0 {
 			rec = true
-			mapped = strings.Contains(s.str(d), "ErrPanickedWithNonErrorValue") && strings.Contains(s.str(d), "e.(error)")
+			// the recovered variable is whatever is initialised from recover() (`if e := recover(); …` / `e := recover()`),
+			// the error result the LAST result, of type error, by whatever name
+			recovered, errRes := "", ""
+			for _, a := range all[*ast.AssignStmt](d, nil) {
+				if len(a.Lhs) == 1 && len(a.Rhs) == 1 && s.str(a.Rhs[0]) == "recover()" && recovered == "" {
+					recovered = s.str(a.Lhs[0])
+				}
+			}
+			if ucd.Type != nil && ucd.Type.Results != nil {
+				if rs := ucd.Type.Results.List; len(rs) > 0 && rs[len(rs)-1] != nil && s.str(rs[len(rs)-1].Type) == "error" {
+					if ns := rs[len(rs)-1].Names; len(ns) > 0 {
+						errRes = ns[len(ns)-1].Name
+					}
+				}
+			}
+			// (as before: the deferred function mentions the sentinel and asserts the recovered value to `error`; now
+			// also: the assertion's result and the sentinel are both assigned to the error result)
+			asserted, sentinel := false, false
+			if recovered != "" && recovered != "_" && errRes != "" && errRes != "_" {
+				for _, a := range all[*ast.AssignStmt](d, nil) {
+					if len(a.Lhs) == 0 || len(a.Rhs) != 1 || s.str(a.Lhs[0]) != errRes {
+						continue
+					}
+					switch s.str(a.Rhs[0]) {
+					case recovered + ".(error)":
+						asserted = true
+					case "ErrPanickedWithNonErrorValue":
+						sentinel = len(a.Lhs) == 1
+					}
+				}
+			}
+			mapped = asserted && sentinel
 		}
 	}
 	f.b("ucRecovers", rec, s.pos(ucd))
